@@ -188,6 +188,42 @@ theorem shiftMany_ge (ps : List Nat) (n : Nat) : n ≤ shiftMany ps n ∧ shiftM
     · rw [shift_at_or_above p n h] at this ⊢; omega
     · rw [shift_below p n (by omega)] at this ⊢; omega
 
+/-- one insertion keeps the order of the old lines: two findings never swap places or land on one line -/
+theorem shift_strictMono (pos a b : Nat) (h : a < b) : shift pos a < shift pos b := by
+  unfold shift; split <;> split <;> omega
+
+/-- … and so does any sequence of insertions -/
+theorem shiftMany_strictMono (ps : List Nat) (a b : Nat) (h : a < b) : shiftMany ps a < shiftMany ps b := by
+  induction ps generalizing a b with
+  | nil => simpa [shiftMany]
+  | cons p ps ih => exact ih _ _ (shift_strictMono p a b h)
+
+/-- distinct lines stay distinct: the renumbering never merges two findings -/
+theorem shiftMany_injective (ps : List Nat) (a b : Nat) (h : shiftMany ps a = shiftMany ps b) : a = b := by
+  rcases Nat.lt_trichotomy a b with hlt | heq | hgt
+  · have := shiftMany_strictMono ps a b hlt; omega
+  · exact heq
+  · have := shiftMany_strictMono ps b a hgt; omega
+
+/-- insertions applied in two batches renumber like one batch -/
+theorem shiftMany_append (ps qs : List Nat) (n : Nat) : shiftMany (ps ++ qs) n = shiftMany qs (shiftMany ps n) := by
+  induction ps generalizing n with
+  | nil => rfl
+  | cons p ps ih => simp [shiftMany, ih]
+
+/-- the distance between two findings never shrinks and grows by at most the number of inserted lines -/
+theorem shiftMany_distance (ps : List Nat) (a b : Nat) (h : a ≤ b) :
+    b - a ≤ shiftMany ps b - shiftMany ps a ∧ shiftMany ps b - shiftMany ps a ≤ b - a + ps.length := by
+  induction ps generalizing a b with
+  | nil => simp [shiftMany]
+  | cons p ps ih =>
+    simp only [shiftMany, List.length_cons]
+    have hs : shift p a ≤ shift p b := by unfold shift; split <;> split <;> omega
+    have hd : b - a ≤ shift p b - shift p a ∧ shift p b - shift p a ≤ b - a + 1 := by
+      unfold shift; split <;> split <;> omega
+    have := ih (shift p a) (shift p b) hs
+    omega
+
 /-! ## `normalize_line` does not see layout -/
 
 
